@@ -40,8 +40,16 @@ Theorem C01_scores_skeleton_as_modelled :
     sk_iter_end C sc = sc_iter_end C sc /\
     sk_unstripe C sc = sc_unstripe C sc.
 Proof.
-  intros. repeat split; try reflexivity;
-    first [apply sk_index_eq | apply sk_iter_get_eq | apply sk_unstripe_eq].
+  intros. repeat apply conj.
+  - apply sk_empty_eq.
+  - apply sk_is_empty_eq.
+  - apply sk_resize_eq.
+  - apply sk_offset_eq.
+  - apply sk_index_eq.
+  - apply sk_iter_get_eq.
+  - apply sk_iter_lo_eq.
+  - apply sk_iter_end_eq.
+  - apply sk_unstripe_eq.
 Qed.
 
 (* the default body of Score::score_rows_into never reads the buffer it is given: outcome
